@@ -9,6 +9,10 @@ for s in $seeds; do
     VERIF_SEED=$s /venv/bin/python run_check.py $p --tier quick --no-evidence > out/sweep_${p}_$s.log 2>&1
     code=$?
     echo "seed=$s $p exit=$code $(grep "^$p tier" out/sweep_${p}_$s.log | sed 's/.*evaluations/evaluations/' | cut -c1-90)"
-    [ $code -ne 0 ] && grep "^VIOLATION\|sub=\|HARNESS" out/sweep_${p}_$s.log | cut -c1-400 | head -8
+    if [ $code -ne 0 ]; then
+      grep "^VIOLATION\|sub=\|HARNESS" out/sweep_${p}_$s.log | cut -c1-400 | head -8
+      # the next run of the same property clears its violations directory: keep a copy
+      rm -rf out/sweep_violations_${p}_$s; cp -r "${VERIF_OUT_DIR:-out}/violations/$p" out/sweep_violations_${p}_$s 2>/dev/null
+    fi
   done
 done
